@@ -54,4 +54,29 @@ def applyPass (auto : Bool) (d : Data) (r : PassResult) : Data :=
   let d1 := r.marked.foldl (fun d m => stamp d (.deleteSG m.1 m.2.1 m.2.2 .recent)) d
   if r.pruned then stamp d1 .prune else d1
 
+/-! ### the local deletion (tsdb.Store.DeleteShard), as far as the database's series go
+
+The expired shard's series are removed from the database's series file — and, for the
+in-memory index, from the index the shards share — unless another shard of the database
+holds them.  `target`: the series the expired shard holds; `others`: per other shard of the
+database what it holds, `none` when its index cannot be had (the shard is disabled or closed). -/
+
+/-- `none`: the deletion is abandoned and nothing changes; `some rm`: the shard goes and the
+series `rm` leave the series file -/
+def deleteShardSeries (target : List Nat) (others : List (Option (List Nat))) : Option (List Nat) :=
+  if others.any Option.isNone then none
+  else some (target.filter fun id => others.all fun o => !(o.getD []).contains id)
+
+/-- the variant that skips a shard whose index is unavailable instead of stopping -/
+def deleteShardSeriesSkipping (target : List Nat) (others : List (Option (List Nat))) : List Nat :=
+  target.filter fun id => others.all fun o => !(o.getD []).contains id
+
+/-- what the node is left with after the retention service asked for the deletion at two
+consecutive checks, the other shards being as in `others1` at the first and `others2` at the
+second: (was the first attempt abandoned, series removed from the series file) -/
+def deleteShardTwice (target : List Nat) (others1 others2 : List (Option (List Nat))) : Bool × Option (List Nat) :=
+  match deleteShardSeries target others1 with
+  | some rm => (false, some rm)
+  | none => (true, deleteShardSeries target others2)
+
 end InfluxVerif.Retention
